@@ -8,6 +8,7 @@ import (
 	"strings"
 
 	"github.com/expr-lang/expr"
+	"github.com/expr-lang/expr/ast"
 	"github.com/expr-lang/expr/vm"
 	"github.com/rulego/streamsql/functions"
 )
@@ -60,6 +61,7 @@ func NewExprCondition(expression string) (Condition, error) {
 		}),
 		expr.AllowUndefinedVariables(),
 		expr.AsBool(),
+		expr.Patch(nullSafeComparisons{}),
 	}
 	// 注入 StreamSQL 内置函数，使 WHERE/HAVING/OVER-WHEN 等条件可调用 to_seconds/now/abs 等
 	options = append(options, functions.GetExprBridge().RegisterStreamSQLFunctionsToExpr()...)
@@ -79,6 +81,82 @@ func NewExprCondition(expression string) (Condition, error) {
 		ec.fast = fc
 	}
 	return ec, nil
+}
+
+// nullSafeComparisons makes a comparison with a NULL (nil) or missing operand "not true", as SQL
+// does, instead of leaving it to the expression engine, where nil > 1 is a run-time error that turns
+// the whole predicate false (n > 1 OR a > 1 rejected a row that a > 1 OR n > 1 accepted) and nil != 5
+// is true. Every comparison `l OP r` becomes `l != nil && r != nil && l OP r`; comparisons with the
+// nil literal itself (the rewritten IS [NOT] NULL) are left alone.
+type nullSafeComparisons struct{}
+
+func (nullSafeComparisons) Visit(node *ast.Node) {
+	bn, ok := (*node).(*ast.BinaryNode)
+	if !ok {
+		return
+	}
+	switch bn.Operator {
+	case "==", "!=", "<", ">", "<=", ">=":
+	case "+", "-", "*", "/", "%":
+		// NULL arithmetic is NULL (not a run-time error): (l == nil || r == nil) ? nil : l OP r
+		var isNull ast.Node
+		for _, operand := range []ast.Node{bn.Left, bn.Right} {
+			if isConstantNode(operand) {
+				continue
+			}
+			var t ast.Node = &ast.BinaryNode{Operator: "==", Left: operand, Right: &ast.NilNode{}}
+			if isNull == nil {
+				isNull = t
+			} else {
+				isNull = &ast.BinaryNode{Operator: "||", Left: isNull, Right: t}
+			}
+		}
+		if isNull != nil {
+			ast.Patch(node, &ast.ConditionalNode{Cond: isNull, Exp1: &ast.NilNode{}, Exp2: bn})
+		}
+		return
+	default:
+		return
+	}
+	if isNilLiteral(bn.Left) || isNilLiteral(bn.Right) {
+		return
+	}
+	var guard ast.Node
+	for _, operand := range []ast.Node{bn.Left, bn.Right} {
+		if isConstantNode(operand) {
+			continue
+		}
+		var g ast.Node = &ast.BinaryNode{Operator: "!=", Left: operand, Right: &ast.NilNode{}}
+		if guard == nil {
+			guard = g
+		} else {
+			guard = &ast.BinaryNode{Operator: "&&", Left: guard, Right: g}
+		}
+	}
+	if guard == nil {
+		return
+	}
+	ast.Patch(node, &ast.BinaryNode{Operator: "&&", Left: guard, Right: bn})
+}
+
+func isNilLiteral(n ast.Node) bool {
+	if _, ok := n.(*ast.NilNode); ok {
+		return true
+	}
+	// `x = null` / `x != null`: null is not a keyword of the expression engine but an undefined
+	// variable, i.e. nil; such a comparison is an explicit NULL test and stays as it is
+	if id, ok := n.(*ast.IdentifierNode); ok && strings.EqualFold(id.Value, "null") {
+		return true
+	}
+	return false
+}
+
+func isConstantNode(n ast.Node) bool {
+	switch n.(type) {
+	case *ast.IntegerNode, *ast.FloatNode, *ast.StringNode, *ast.BoolNode, *ast.ConstantNode:
+		return true
+	}
+	return false
 }
 
 // rewriteSQLNot replaces the keyword NOT in front of a parenthesis by `!`, outside string literals.
